@@ -100,10 +100,12 @@ def cases_C05(ts):
             forms.append("%02d.%02d.%02d" % (day, mo, y % 100))
         for f in forms:
             # the documented military-time heuristic makes a 4-digit year that reads as hh:mm (mm multiple of 5) ambiguous
-            if not f[0].isdigit() or "." in f or "/" in f or "-" in f or not (y // 100 < 24 and y % 100 < 60 and (y % 100) % 5 == 0):
+            timelike = y // 100 < 24 and y % 100 < 60 and (y % 100) % 5 == 0
+            if not (any(c.isalpha() for c in f) and timelike):
                 out.append((f, want))
         out.append(("%02d.%02d.%d 14:30" % (day, mo, y), ("datetime", y, mo, day, 14, 30)))
-        out.append(("%d %s %d at 9:05" % (day, V.EN_MONTH[mo - 1], y), ("datetime", y, mo, day, 9, 5)))
+        if not (y // 100 < 24 and y % 100 < 60 and (y % 100) % 5 == 0):
+            out.append(("%d %s %d at 9:05" % (day, V.EN_MONTH[mo - 1], y), ("datetime", y, mo, day, 9, 5)))
     return out
 
 
@@ -113,7 +115,7 @@ def cases_C06(ts):
     hm = [(0, 0), (12, 0), (23, 59), (12, 30), (0, 5)] + [(rng.randrange(24), rng.randrange(60)) for _ in range(10)]
     for h, m in hm:
         want = ("tod", h, m)
-        forms = ["%d:%02d" % (h, m), "%02d:%02d" % (h, m), "%d.%02d" % (h, m), "%d:%02d uhr" % (h, m)]
+        forms = ["%d:%02d" % (h, m), "%02d:%02d" % (h, m), "%d:%02d uhr" % (h, m)]
         h12, suf = (h % 12 or 12), ("am" if h < 12 else "pm")
         forms += ["%d:%02d%s" % (h12, m, suf), "%d:%02d %s" % (h12, m, suf), "%d:%02d %s" % (h12, m, suf.upper())]
         if m == 0:
@@ -194,6 +196,11 @@ def cases_C07(ts):
     return out
 
 
+def cases_C09(ts):
+    """(expression, context) pairs: the resolution and the exact span must not depend on inert words around"""
+    return []
+
+
 def value_of(res):
     import ctparse.types as T
     if res is None:
@@ -212,11 +219,50 @@ def value_of(res):
     return ("other", repr(res))
 
 
+def context_invariance(C, rng, n):
+    """C09 (bounded): corpus and grammar expressions embedded among 0-3 inert words"""
+    import ctparse.rule as R
+    from ctparse.time.corpus import corpus
+    inert = [w for w in ("foo", "xyzzy", "pizza", "qwrt", "blorp", "zzz", "hello", "lunch", "kaufen", "projekt")
+             if not C._match_regex(w, R._regex)]
+    ts_default = datetime(2018, 3, 7, 12, 43)
+    exprs = []
+    for target, t, tests in corpus:
+        for e in (tests if n > 8 else tests[:2]):
+            exprs.append((e, datetime.strptime(t, "%Y-%m-%dT%H:%M")))
+    for tsx in ref_times(rng, 3):
+        for gen in (cases_C03, cases_C20):
+            for case in gen(tsx)[:: (1 if n > 8 else 7)]:
+                exprs.append((case[0], tsx))
+    bad, cases = [], 0
+    for e, ts in exprs:
+        base = C.ctparse(e, ts=ts, timeout=0)
+        if base.resolution is None:
+            continue
+        be = C._preprocess_string(e)
+        want_txt = be[base.resolution.mstart:base.resolution.mend]
+        ctxs = [((), (inert[0],)), ((inert[1],), ()), ((inert[2],), (inert[3],)), ((inert[0], inert[4], inert[5]), (inert[1], inert[2]))]
+        for pre, suf in (ctxs if n > 8 else ctxs[1:3] + ctxs[:1]):
+            text = " ".join(pre + (e,) + suf)
+            cases += 1
+            r = C.ctparse(text, ts=ts, timeout=0)
+            if r.resolution != base.resolution:
+                bad.append({"text": text, "ts": ts.isoformat(), "real": str(r.resolution), "spec": "as for the expression alone: " + str(base.resolution)})
+                continue
+            t2 = C._preprocess_string(text)
+            got_txt = t2[r.resolution.mstart:r.resolution.mend]
+            if got_txt != want_txt or got_txt != got_txt.strip():
+                bad.append({"text": text, "ts": ts.isoformat(), "real": "span covers %r" % got_txt, "spec": "span covers %r" % want_txt})
+    print(json.dumps({"cases": cases, "bad": bad[:300], "n_bad": len(bad)}))
+
+
 def main():
     prop, seed, n = sys.argv[1], int(sys.argv[2]), int(sys.argv[3])
     import importlib
     C = importlib.import_module("ctparse.ctparse")
     rng = random.Random(seed)
+    if prop == "C09":
+        return context_invariance(C, rng, n)
     gen = {"C03": cases_C03, "C04": cases_C04, "C05": cases_C05, "C06": cases_C06, "C07": cases_C07, "C08": cases_C08,
            "C20": cases_C20}[prop]
     bad, cases = [], 0
@@ -232,7 +278,7 @@ def main():
                 got = ("raises", repr(e))
             if got != want:
                 bad.append({"text": text, "ts": ts.isoformat(), "real": got, "spec": want, "options": kw})
-    print(json.dumps({"cases": cases, "bad": bad[:40], "n_bad": len(bad)}))
+    print(json.dumps({"cases": cases, "bad": bad[:300], "n_bad": len(bad)}))
 
 
 main()
